@@ -23,12 +23,23 @@ class CoqError(Exception):
     pass
 
 
+def _big_stack():
+    """vm_compute / printing of the trees of a large network (25+ links) overflows coqc's default 8 MB stack:
+    raise the soft limit of the child to the hard limit (usually unlimited)"""
+    import resource
+    try:
+        soft, hard = resource.getrlimit(resource.RLIMIT_STACK)
+        resource.setrlimit(resource.RLIMIT_STACK, (hard, hard))
+    except (ValueError, OSError):
+        pass
+
+
 def run_coq_file(text, workdir, name, timeout=600):
     path = os.path.join(workdir, name + ".v")
     with open(path, "w") as f:
         f.write(text)
     p = subprocess.run(["coqc", "-Q", os.path.join(COQ_DIR, "theories"), "SM", path],
-                       capture_output=True, text=True, timeout=timeout, cwd=workdir)
+                       capture_output=True, text=True, timeout=timeout, cwd=workdir, preexec_fn=_big_stack)
     if p.returncode != 0:
         raise CoqError(p.stderr[-3000:] + p.stdout[-500:])
     return p.stdout
